@@ -92,6 +92,16 @@ class Effects:
       elif isinstance(s, ast.ImportFrom):
         for al in s.names:
           self.imports[al.asname or al.name] = (s.module or '') + '.' + al.name
+    self.rng_names = set()   # names bound (at module level or in an enclosing scope) to an RNG generator object
+    for s in ast.walk(tree):
+      if isinstance(s, ast.Assign) and isinstance(s.value, ast.Call):
+        nm = self._dotted(s.value.func) or ''
+        head = nm.split('.')[0]
+        full = (self.imports.get(head, head) + nm[len(head):]) if head in self.imports else nm
+        if 'random' in full and full.split('.')[-1] in RNG_OK_CONSTRUCTORS:
+          for t in s.targets:
+            if isinstance(t, ast.Name):
+              self.rng_names.add(t.id)
     self.found = []   # (kind, function qualname, node, detail)
 
   def run(self):
@@ -237,6 +247,9 @@ class Effects:
               elif last not in RNG_OK_CONSTRUCTORS:
                 # method on a constructed generator is fine: np.random.RandomState(1).uniform -> func is Attribute(Call)
                 self.found.append(('global-rng', qual, n, full))
+            if isinstance(n.func, ast.Attribute) and isinstance(n.func.value, ast.Name) and n.func.value.id in self.rng_names and \
+                origin(n.func.value.id) in ('module', 'captured'):
+              self.found.append(('global-rng', qual, n, f'{n.func.value.id}.{n.func.attr} (generator shared across calls)'))
             if full in CLOCK_CALLS or name in CLOCK_CALLS:
               self.found.append(('clock', qual, n, full))
             # mutating method as a statement
@@ -305,9 +318,11 @@ def run(ctx):
   fresh_list_callers(ctx)
   state_is_data(ctx)
   # R3 / R2 static-field constancy / R4
-  from . import C07, C04
+  from . import C07, C04, C12
   C07.ds_layout(ctx)
   C07.other_layouts(ctx)
+  C07.sharded_triple(ctx)      # static fields (sizes, index_start) and declared layout of the sharded restore template
+  C12.run(ctx)                 # SM3 accumulators keep their init shape (plain max over the complementary axes)
   C04.counters(ctx)
   init_counters(ctx)
 
